@@ -139,6 +139,7 @@ Definition match_arg (f : frame) (k : ekind) : option nat :=
   | FRunWait r, KRunProceed r' => if Nat.eqb r r' then Some 0 else None
   | FRunLock r, KRunLocked r' _ => if Nat.eqb r r' then Some 0 else None
   | FCleanStart r, KCleanStart r' _ => if Nat.eqb r r' then Some 0 else None
+  | FCleanStart r, KUnlock r' => if Nat.eqb r r' then Some 1 else None   (* the run gave up during the write-then-read delay: its context is cancelled *)
   | FClean r ks, KCleanEntry child _ => if memb child ks then Some child else None
   | FClean r [], KCleanEnd r' => if Nat.eqb r r' then Some 0 else None
   | FBegin _, KBegin _ => Some 0
